@@ -5,6 +5,7 @@ CONSTANT Emit = FALSE
 INVARIANT RPCheck
 INVARIANT VOSCheck
 INVARIANT MTCheck
+INVARIANT VOS2Check
 INVARIANT FSCheck
 INVARIANT Confined
 INVARIANT ResolveIsWalk
